@@ -22,7 +22,7 @@ from .. import tlc
 from . import constellation_common as cc
 
 CARE = ["WellFormed", "Bijective", "Unchecked", "Accepts"]
-SNR_DB = np.arange(-30, 61, dtype=float)
+SNR_DB = np.arange(-30, 61, dtype=float)          # quick: 91 integer points (thorough: 364 points, see run)
 PACKETS = [1, 2, 10, 100, 1000, 10000]
 REL = 1e-9
 
@@ -102,7 +102,7 @@ def judge(ctx, name, spec, step, obj, pr, exact=True):
         try:
             got = np.asarray(fn(SNR_DB), dtype=float)
             vals[q] = got
-            g2 = np.asarray(fn(SNR_DB.reshape(7, 13)), dtype=float)
+            g2 = np.asarray(fn(SNR_DB.reshape(7, -1)), dtype=float)
             gs = np.array([float(fn(float(x))) for x in SNR_DB[::6]])
             gi = float(fn(10))
         except Exception as ex:
@@ -112,7 +112,7 @@ def judge(ctx, name, spec, step, obj, pr, exact=True):
             i = first_bad(got, exp, at)
             bad(q, f"calcTheoretical{q}({SNR_DB[i]:g} dB) = {got.ravel()[i] if got.size > i else got!r}, the constellation emitted implies {exp[i]!r} "
                    f"(a={pr['a']}, b={pr['b']}, sep={pr['sep']}, dims={pr['dims']}, k={k})", snr_db=float(SNR_DB[i]), exp=float(exp[i]))
-        elif not close(g2, exp.reshape(7, 13), at):
+        elif not close(g2, exp.reshape(7, -1), at):
             bad(q, f"calcTheoretical{q} of a 2-d SNR array differs from the element-wise values", snr_db="2d")
         elif not close(gs, exp[::6], at) or not close(gi, forms(pr, 10.0)[0 if q == "SER" else 1], at):
             bad(q, f"calcTheoretical{q} of a scalar SNR differs from the array value", snr_db="scalar")
@@ -181,9 +181,10 @@ def judge(ctx, name, spec, step, obj, pr, exact=True):
         bad("PER", f"PER / spectral efficiency raised {type(ex).__name__}: {ex}")
     # PSK: the formula is the two-nearest-neighbour bound: exact <= bound <= 2 exact   (rel)
     if pr["form"] == "psk" and exact:
-        pts = SNR_DB[::3]
+        step = 3 if len(SNR_DB) < 100 else 8
+        pts = SNR_DB[::step]
         ex_ = psk_exact(M, pts)
-        bnd = S[::3]
+        bnd = S[::step]
         use = ex_ > 1e-250
         lo = ex_[use] <= bnd[use] * (1 + 1e-7)
         hi = bnd[use] <= 2 * ex_[use] * (1 + 1e-7)
@@ -213,6 +214,9 @@ def run(ctx):
     ctx.assumptions += ["(rel) scipy erfc and quad are trusted; comparisons use relative tolerance 1e-9 (+1e-300)",
                         "SNR = Es/N0 with the noise added to the emitted symbols: b uses the RECORDED scale of the table",
                         "PSK formula = two-nearest-neighbour bound; exact SER by Craig's integral"]
+    global SNR_DB
+    if ctx.tier == "thorough":
+        SNR_DB = np.linspace(-30.0, 60.0, 364)        # 364 = 7 * 52 points, about 0.25 dB apart
     specs = object_specs(ctx)
     jobs = [("psk/cards", dict(kind="PSK", cards=list(range(0, 1101)) + [2048, 4096], noff=1, smode="seeded", nrows=1, rowlen=2, workers=1)),
             ("qam/cards", dict(kind="QAM", cards=list(range(0, 1101)) + [4096], smode="seeded", nrows=1, rowlen=2, workers=1)),
@@ -259,7 +263,7 @@ def run(ctx):
                         "ser_at_10dB": float(forms(pr, 10.0)[0]), "implementation": float(obj.calcTheoreticalSER(10.0))})
     ctx.sample({"stage": "M", "reference_machine_params": {f"{k[0]}{k[1]}": v for k, v in list(ref.items())[:3]}})
     ctx.exhaustive = False
-    ctx.notes["bounds"] = {"modulators": nobj, "snr_db": [-30, 60], "snr_points": len(SNR_DB), "packet_lengths": PACKETS}
+    ctx.notes["bounds"] = {"modulators": nobj, "snr_db": [-30, 60], "snr_points": int(len(SNR_DB)), "packet_lengths": PACKETS}
 
 
 def replay(ctx, data):
